@@ -118,7 +118,8 @@ def gen(g, tier):
             elif k == 2:
                 inc["http"].append({"kind": "short", "fraction": g.pick([0.0, 0.3, 0.9]), "content_length": g.coin(0.6)})
             elif k == 3:
-                inc["http"].append({"kind": "status", "code": g.pick([404, 403, 500, 503])})
+                # (3xx: a redirect that urllib3 hands back unfollowed - no usable Location, 300 Multiple Choices, 304)
+                inc["http"].append({"kind": "status", "code": g.pick([404, 403, 500, 503, 300, 302, 304])})
             elif k == 4:
                 inc["http"].append({"kind": "corrupt", "content_length": g.coin(0.7)})
             elif k == 5:
